@@ -676,8 +676,8 @@ func (e *Engine) loadHeapVal(s *State, nm string, ref Term, t types.Type) Val {
 	case *types.Signature:
 		e.heapArr(s, nm+"$fn", refArrSort("Ref"))
 		id := s.res(e.read1(s, nm+"$fn", ref, "Ref"))
-		if id.C == nil {
-			panic("function value loaded from the heap is not a known closure")
+		if id.C == nil { // a function value this path did not create (e.g. a package-level func variable)
+			return FuncV{Unknown: nm, Sig: u}
 		}
 		if id.C.Sign() == 0 {
 			return FuncV{}
